@@ -47,6 +47,8 @@ func main() {
 		runC13(r, rng, thorough)
 	case "C12":
 		runC12(r, rng, thorough)
+	case "C11":
+		runC11(r, rng, thorough)
 	case "C14":
 		runC14(r, rng, thorough)
 	case "C17":
